@@ -130,6 +130,27 @@ pub open spec fn scan_ok(m: Option<&ConnectTokenEntry>, t0: Seq<Option<ConnectTo
     &&& (m is None ==> forall|j: int| 0 <= j < k ==> ((#[trigger] t0[j]) matches Some(e) ==> e.mac@ != mac))
 }
 
+/// loop invariant of the slot choice in find_or_add_connect_token_entry after k slots: once a free slot was seen the choice is the first free slot;
+/// until then every slot seen is occupied, none is older than `min`, and the choice is a slot holding `min` (or slot 0 while `min` is still Duration::MAX)
+pub open spec fn slot_pick_ok(t0: Seq<Option<ConnectTokenEntry>>, k: int, oldest: int, min: Duration, empty: bool) -> bool {
+    &&& 0 <= oldest < t0.len()
+    &&& (empty ==> oldest < k && t0[oldest] is None)
+    &&& (!empty ==> {
+            &&& forall|j: int| 0 <= j < k ==> (#[trigger] t0[j]) is Some && t0[j]->Some_0.time.nanos >= min.nanos
+            &&& ((oldest < k && t0[oldest] is Some && t0[oldest]->Some_0.time.nanos == min.nanos) || (oldest == 0 && min == Duration::MAX))
+        })
+}
+
+/// C05 ("a token already used from a different address never connects" needs the table to remember tokens): slot `i` may be overwritten only if it is free,
+/// or if no slot is free and no remembered token is older than the one in slot `i` (the eviction rule of the 2048-entry table)
+pub open spec fn evictable(t0: Seq<Option<ConnectTokenEntry>>, i: int) -> bool {
+    &&& 0 <= i < t0.len()
+    &&& (t0[i] is None || {
+            &&& forall|j: int| 0 <= j < t0.len() ==> (#[trigger] t0[j]) is Some
+            &&& forall|j: int| 0 <= j < t0.len() ==> (#[trigger] t0[j])->Some_0.time.nanos >= t0[i]->Some_0.time.nanos || t0[j]->Some_0.time.nanos >= Duration::MAX.nanos
+        })
+}
+
 /// C10: the connected clients have pairwise distinct client ids and pairwise distinct addresses
 pub open spec fn table_unique(t: Seq<Option<Connection>>) -> bool {
     forall|i: int, j: int| 0 <= i < t.len() && 0 <= j < t.len() && i != j && (#[trigger] t[i]) is Some && (#[trigger] t[j]) is Some
@@ -394,6 +415,7 @@ impl NetcodeServer {
                 oldest_entry < 2048,
                 t0.len() == 2048,
                 scan_ok(matching_entry, t0, i as int, new_entry.mac@),
+                slot_pick_ok(t0, i as int, oldest_entry as int, min, empty_entry),   // @C05,C19 token_entry.slot_choice_prefers_a_free_slot_then_the_oldest_entry
 //@after /Some\(e\) => \{/
                     let ghost m_before = matching_entry;
                     proof { assert(*entry == t0[i as int]); assert(t0[i as int] == Some(*e)); }
@@ -412,6 +434,9 @@ impl NetcodeServer {
 //@before /^\s+true$/
         proof {
             assert(self.connect_token_entries@[oldest_entry as int] == Some(new_entry));
+            assert(slot_pick_ok(t0, 2048, oldest_entry as int, min, empty_entry));
+            assert(evictable(t0, oldest_entry as int));
+            assert(self.connect_token_entries@ =~= t0.update(oldest_entry as int, Some(new_entry)));
             assert(forall|j: int| 0 <= j < 2048 ==> ((#[trigger] t0[j]) matches Some(e) ==> e.mac@ != new_entry.mac@));
         }
 //@endfn
